@@ -20,6 +20,7 @@ type Opts struct {
 	Deadline    time.Duration
 	StepBudget  int64
 	SolverMs    int
+	FastMs      int
 	CrossCheck  bool // run assertion queries on z3-new and cvc5 as well
 	Known       map[string]bool
 	Thorough    bool
@@ -34,6 +35,7 @@ type AssertStat struct {
 	ConcreteOK int
 	Violated   int
 	Unknown    int
+	HuntUnknown int
 	Ms         float64
 }
 
@@ -84,6 +86,9 @@ func Run(P *engine.Program, fn *ssa.Function, o Opts) *Summary {
 	if o.SolverMs <= 0 {
 		o.SolverMs = 20000
 	}
+	if o.FastMs <= 0 {
+		o.FastMs = 1500
+	}
 	if o.SampleEvery <= 0 {
 		o.SampleEvery = 7
 	}
@@ -103,7 +108,7 @@ func Run(P *engine.Program, fn *ssa.Function, o Opts) *Summary {
 	okPaths := 0
 
 	worker := func(id int) {
-		proc, err := smt.StartProc("z3", o.SolverMs)
+		proc, err := smt.StartProc("z3", o.FastMs)
 		if err != nil {
 			mu.Lock()
 			s.EngineErrs = append(s.EngineErrs, "cannot start z3: "+err.Error())
@@ -146,7 +151,7 @@ func Run(P *engine.Program, fn *ssa.Function, o Opts) *Summary {
 				want = true
 			}
 			res := P.RunPath(fn, prefix, proc, mirrors, engine.RunOpts{StepBudget: o.StepBudget, CrossCheck: o.CrossCheck,
-				Known: o.Known, WantModel: want, Thorough: o.Thorough})
+				Known: o.Known, WantModel: want, Thorough: o.Thorough, SlowMs: o.SolverMs})
 
 			mu.Lock()
 			active--
@@ -189,9 +194,11 @@ func Run(P *engine.Program, fn *ssa.Function, o Opts) *Summary {
 					if len(s.Violations) < 200 {
 						s.Violations = append(s.Violations, Violation{AssertID: a.ID, Why: a.Why, Model: a.Model, Choices: res.Choices, Prefix: res.Prefix})
 					}
+				case "hunt-unknown":
+					st.HuntUnknown++
 				default:
 					st.Unknown++
-					s.Undecided[a.ID+": "+a.Why]++
+					s.Undecided[fmt.Sprintf("%s: %s choices=%v", a.ID, a.Why, res.Choices)]++
 				}
 			}
 			switch res.Status {
@@ -203,7 +210,7 @@ func Run(P *engine.Program, fn *ssa.Function, o Opts) *Summary {
 			case "unsupported":
 				s.Unsupported[res.Detail]++
 			case "undecided":
-				s.Undecided[res.Detail]++
+				s.Undecided[fmt.Sprintf("%s choices=%v", res.Detail, res.Choices)]++
 			case "engine-error":
 				if len(s.EngineErrs) < 5 {
 					s.EngineErrs = append(s.EngineErrs, res.Detail)
